@@ -124,10 +124,11 @@ func (d *robust) malformedMsgs(bech string) []struct {
 		{"deposits/garbageTx", &bitcointypes.MsgNewDeposits{Proposer: bech, Deposits: []*bitcointypes.Deposit{{EvmAddress: rb(20), NoWitnessTx: rb(94 + r.Intn(200)), RelayerPubkey: anyKey, IntermediateProof: rb(r.Intn(100))}}, BlockHeaders: []*bitcointypes.BlockHeader{{Height: 0, Raw: rb(80)}}}},
 		{"deposits/tooMany", &bitcointypes.MsgNewDeposits{Proposer: bech, Deposits: emptyDeposits(17), BlockHeaders: []*bitcointypes.BlockHeader{{Height: 0, Raw: rb(80)}}}},
 		{"process/nilVote", &bitcointypes.MsgProcessWithdrawal{Proposer: bech, Id: []uint64{1}, NoWitnessTx: rb(80), TxFee: 1}},
-		{"process/noIds", &bitcointypes.MsgProcessWithdrawal{Proposer: bech, Vote: vote(8, 48), NoWitnessTx: rb(80), TxFee: 1}},
-		{"process/manyIds", &bitcointypes.MsgProcessWithdrawal{Proposer: bech, Vote: vote(8, 48), Id: make([]uint64, 33), NoWitnessTx: rb(80), TxFee: 1}},
+		{"process/noIds", &bitcointypes.MsgProcessWithdrawal{Proposer: bech, Vote: vote(8, 48), NoWitnessTx: rb(120), TxFee: 1}},
+		{"process/manyIds", &bitcointypes.MsgProcessWithdrawal{Proposer: bech, Vote: vote(8, 48), Id: make([]uint64, 33), NoWitnessTx: rb(120), TxFee: 1}},
 		{"process/garbageTx", &bitcointypes.MsgProcessWithdrawal{Proposer: bech, Vote: vote(8, 48), Id: []uint64{1}, NoWitnessTx: rb(61 + r.Intn(300)), TxFee: 1}},
-		{"process/fee0", &bitcointypes.MsgProcessWithdrawal{Proposer: bech, Vote: vote(8, 48), Id: []uint64{1}, NoWitnessTx: rb(80)}},
+		{"process/fee0", &bitcointypes.MsgProcessWithdrawal{Proposer: bech, Vote: vote(8, 48), Id: []uint64{1}, NoWitnessTx: rb(120)}},
+		{"replace/fee0", &bitcointypes.MsgReplaceWithdrawal{Proposer: bech, Vote: vote(8, 48), NewNoWitnessTx: rb(120), Pid: uint64(r.Intn(3))}},
 		{"replace/nilVote", &bitcointypes.MsgReplaceWithdrawal{Proposer: bech, NewNoWitnessTx: rb(80), NewTxFee: 1}},
 		{"replace/garbageTx", &bitcointypes.MsgReplaceWithdrawal{Proposer: bech, Vote: vote(8, 48), NewNoWitnessTx: rb(61 + r.Intn(300)), NewTxFee: uint64(r.Intn(5)), Pid: uint64(r.Intn(3))}},
 		{"finalize/sizes", &bitcointypes.MsgFinalizeWithdrawal{Proposer: bech, Txid: rb(r.Intn(40)), BlockHeader: rb(r.Intn(100)), IntermediateProof: rb(r.Intn(70)), TxIndex: uint32(r.Intn(3))}},
